@@ -240,6 +240,12 @@ def rand_run(rng, fmt, kind, *, calls=None, iters=None, value_classes=None, dist
     if cb is not None and cb[0] == 'builtin' and rng.random() < 0.5:
         # the callback instantiated with the checkpoint's base class (without the engine), as the library's examples do
         s.insert(-1, ['cbbase', 1]); classes.append('callback_on_base_class')
+    if rng.random() < 0.3:
+        # between operations the checkpoint is copied, moved, assigned (also to itself) and swapped
+        s.insert(-1, ['churn', 1]); classes.append('checkpoint_copied_moved_assigned')
+    if rng.random() < 0.3:
+        # one integrand object for all the runs of the case instead of a fresh one per run
+        s.insert(-1, ['reuse', 1]); classes.append('integrand_object_reused')
     if rng.random() < 0.2:
         # while a point is evaluated the integrand runs a small integration of its own (same integrator, same template instantiation)
         s.insert(-1, ['nest', 1]); classes.append('nested_integration')
